@@ -92,10 +92,14 @@ def assert_sites(s):
 
 
 def lit_of(v):
+    if isinstance(v, (bytes, bytearray)):
+        return ('str', bytes(v))
     return ('bool', v) if isinstance(v, bool) else ('num', v)
 
 
 def wrong(v):
+    if isinstance(v, (bytes, bytearray)):
+        return bytes(v) + b'x'
     if isinstance(v, bool):
         return not v
     return v - 1 if v >= INT64_MAX - 1 else v + 1
@@ -158,15 +162,40 @@ def parse_probe(out):
     vals = []
     for i, l in enumerate(lines):
         if l.endswith(MARK_R) and i + 1 < len(lines):
-            v = lines[i + 1]
-            if v in (b'true', b'false'):
-                vals.append(v == b'true')
-            else:
-                try:
-                    vals.append(int(v))
-                except ValueError:
-                    vals.append(None)
+            vals.append(lines[i + 1])
     return vals
+
+
+def typed_value(raw, ty):
+    if ty == 'str':
+        return bytes(raw)
+    if ty == 'bool':
+        return True if raw == b'true' else False if raw == b'false' else None
+    try:
+        return int(raw)
+    except ValueError:
+        return None
+
+
+def string_function(rng, g):
+    """a function over strings (parameters, a string let, == / != on strings, string results); no escapes, no '#'"""
+    lits = [b'', b'a', b'xy', b'xy z', b'Q-1', b'same']
+    k = rng.randrange(3)
+    name = g.fresh()
+    a, b_, t = g.fresh(), g.fresh(), g.fresh()
+    S_ = lambda x: ('str', x)
+    if k == 0:
+        body = seq([('print', True, ('var', a)), ('if', ('bin', 'eq', ('var', a), S_(rng.choice(lits))), ('ret', S_(rng.choice(lits))), ('skip',)), ('ret', ('var', a))])
+        fd = dict(name=name, params=[(a, 'str'), (b_, 'int')], ret='str', body=body, effect=True)
+    elif k == 1:
+        body = seq([('print', False, ('var', a)), ('print', True, ('var', b_)), ('ret', ('bin', rng.choice(['eq', 'ne']), ('var', a), ('var', b_)))])
+        fd = dict(name=name, params=[(a, 'str'), (b_, 'str')], ret='bool', body=body, effect=True)
+    else:
+        body = seq([('let', False, t, 'str', ('var', a)), ('if', ('bin', 'eq', ('var', t), S_(b'')), ('ret', ('num', 0)), ('skip',)),
+                    ('print', True, ('var', t)), ('ret', ('num', rng.randrange(1, 9)))])
+        fd = dict(name=name, params=[(a, 'str')], ret='int', body=body, effect=True)
+    g.f('string_fn')
+    return fd
 
 
 SHAPES = ['plain', 'plain', 'direct', 'for', 'while', 'nested']
@@ -215,6 +244,8 @@ def falsify(a):
     lit = e[3]
     if lit[0] == 'bool':
         return ('assert', ('bin', e[1], e[2], ('bool', not lit[1])))
+    if lit[0] == 'str':
+        return ('assert', ('bin', e[1], e[2], ('str', wrong(lit[1]))))
     return ('assert', ('bin', e[1], e[2], ('num', wrong(lit[1]))))
 
 
@@ -493,6 +524,8 @@ def build_cases(ck, nv_lang, seeds, cfg, modes, tag, drop_shadow_prob=0.0, genf=
     for i, seed in enumerate(seeds):
         g, p = genf(seed) if genf else gen_program(seed, cfg)
         rng = random.Random(seed ^ 0x5bd1e995)
+        if not genf and cfg.strings and rng.random() < 0.45:
+            p['fns'].insert(len(p['fns']) - 1, string_function(rng, g))
         calls = choose_calls(rng, g, p, cfg)
         pre.append((seed, g, p, rng, calls))
     probes = [progen.to_sexp(probe_program(g, p, calls)) for (_, g, p, _, calls) in pre]
@@ -502,9 +535,11 @@ def build_cases(ck, nv_lang, seeds, cfg, modes, tag, drop_shadow_prob=0.0, genf=
         if r['cls'] != 'exit':
             ck.extra['dropped'][tag + ':probe-' + r['cls']] += 1
             continue
-        vals = parse_probe(r['out'])
+        raw = parse_probe(r['out'])
         ncalls = sum(len(v) for v in calls.values())
-        if len(vals) != ncalls or any(v is None for v in vals):
+        tys = [f['ret'] if f['ret'] != 'void' else 'int' for f in p['fns'] if f['name'] != 0 for _ in calls[f['name']]]
+        vals = [typed_value(x, t) for x, t in zip(raw, tys)]
+        if len(raw) != ncalls or any(v is None for v in vals):
             ck.extra['dropped'][tag + ':probe-parse'] += 1
             continue
         c = Case()
